@@ -173,8 +173,16 @@ def check_rotor(res, L, rng, tag):
                 return v
     R = vec() * vec()
     m2 = R.mag2()
+    # prefer a versor with negative R~R when the signature allows one (mixed signatures)
+    for _ in range(12):
+        if m2 < 0:
+            break
+        R2 = vec() * vec()
+        if R2.mag2() < 0:
+            R, m2 = R2, R2.mag2()
     if m2 == 0:
         return
+    res.count('rotor_negative_norm' if m2 < 0 else 'rotor_positive_norm')
     F = tf.LinearMatrix.from_rotor(R)
     site = dict(src=common.site_of(L), dst=common.site_of(L))
     for _ in range(3):
@@ -231,8 +239,13 @@ def layouts_for(rng, count):
     out = []
     for _ in range(count):
         n = int(rng.integers(0, 5))
-        order = gen.random_order(rng, n) if (n <= 3 and rng.random() < 0.3) else None
+        # custom storage orders in about half of the layouts, including ones that store a blade before its sub-blades
+        order = gen.random_order(rng, n, str(rng.choice(['perm', 'grade_reversed', 'scalar_not_first', 'bitmap']))) if (1 <= n <= 4 and rng.random() < 0.5) else None
         out.append(real.make_layout(gen.random_signature(rng, n), order=order))
+    # always: 3- and 4-dimensional sources whose storage order puts higher-grade blades before the blades they are built from
+    for n in (3, 4):
+        out.append(real.make_layout(gen.random_signature(rng, n), order=gen.random_order(rng, n, 'grade_reversed')))
+        out.append(real.make_layout(gen.random_signature(rng, n), order=gen.random_order(rng, n, 'perm')))
     return out
 
 
@@ -242,6 +255,7 @@ def run_job(job, tier, seed):
     ob = common.OpBatch()
     count = (14 if tier == 'quick' else 60) if job == 'transform' else 5
     Ls = layouts_for(rng, count)
+    count = len(Ls)
     for i in range(count):
         a, b = Ls[i], Ls[int(rng.integers(count))]
         st = dict(src=common.site_of(a), dst=common.site_of(b))
